@@ -1360,6 +1360,9 @@ class Authenticated(BaseClientHandler):
             idling = self.idling
             self.idling = True
             async with cmd.ready_and_okay(self.mbox):
+                if self.mbox is None:
+                    raise No("Your selected mailbox no longer exists")
+
                 # Do an EXPUNGE if there are any messages marked 'Delete'
                 #
                 if self.mbox.sequences.get("Deleted", []):
@@ -1393,6 +1396,13 @@ class Authenticated(BaseClientHandler):
         the ones that were queued while it waited before any of its results:
         those results number the messages as they are now.
         """
+        # The mailbox may have been deleted by another client while this
+        # command waited (a mailbox that stays around as `\Noselect` still
+        # lets its queued commands go ahead.)
+        #
+        if self.mbox is None:
+            raise No("Your selected mailbox no longer exists")
+
         if self.pending_expunges():
             if cmd.uid_command:
                 await self.send_pending_notifications()
